@@ -141,6 +141,7 @@ type Interp struct {
 	sched   *scheduler
 	stubs   map[string]int
 	files   map[string]Value // in-memory file system of os.WriteFile / os.ReadFile (per path)
+	pools   map[*Value][]Value // items kept by the program's own sync.Pools (per path)
 	fnCount map[string]int
 	initEnv map[ssa.Value]Value
 	initBusy map[ssa.Value]bool
